@@ -339,6 +339,10 @@ func conv(out *vt.W, p int) {
 // cases (emitted by TLC from Gene.tla, or built by the enumerations below)
 // ---------------------------------------------------------------------------
 
+// Big makes Run execute every case on both transcript kinds and in every argument order
+// (otherwise the kinds and orders alternate over the cases).
+var Big bool
+
 // Case is one line of a case file.
 type Case struct {
 	Op     string `json:"op"`
@@ -412,10 +416,13 @@ func Run(out *vt.W, c Case) {
 		}
 		runs := []run{{"nc", c.Xs}, {"coding", c.Xs}}
 		if len(c.Xs) >= 2 {
-			runs = append(runs, run{"nc", reversed(c.Xs)})
+			runs[1].xs = reversed(c.Xs)
+			if Big {
+				runs = append(runs, run{"coding", c.Xs}, run{"nc", reversed(c.Xs)})
+			}
 		}
 		if len(c.Xs) >= 3 {
-			runs = append(runs, run{"coding", rotated(c.Xs)})
+			runs = append(runs, run{[]string{"nc", "coding"}[len(c.Xs)&1], rotated(c.Xs)})
 		}
 		for _, r := range runs {
 			w := newWorld(r.kind, 4, feat.Forward, &pfeat{0, nil}, 0, 0)
@@ -426,12 +433,23 @@ func Run(out *vt.W, c Case) {
 		switch {
 		case c.Holder == "bare":
 			w := newWorld("bare", 0, feat.Forward, nil, 0, 0)
-			w.add(out, "bare", w.bareSlice(c.Before, c.Spare), c.Xs)
-			if len(c.Xs) > 1 {
+			rev := len(c.Xs) > 1 && (Big || (len(c.Before)+c.Spare+c.Xs[0][0])&1 == 1)
+			if !rev || Big {
+				w.add(out, "bare", w.bareSlice(c.Before, c.Spare), c.Xs)
+			}
+			if rev {
 				w.add(out, "bare", w.bareSlice(c.Before, c.Spare), reversed(c.Xs))
 			}
 		default:
-			for _, kind := range []string{"nc", "coding"} {
+			kinds := []string{"nc", "coding"}
+			if !Big { // one kind per case, both over the cases
+				k := len(c.Before) + len(c.Xs) + c.Spare
+				if len(c.Xs) > 0 {
+					k += c.Xs[0][0] + c.Xs[0][1]
+				}
+				kinds = kinds[k&1 : k&1+1]
+			}
+			for _, kind := range kinds {
 				w := newWorld(kind, 2, feat.Reverse, &pfeat{0, nil}, 0, 0)
 				if len(c.Before) > 0 {
 					w.set(out, reversed(c.Before))
@@ -477,8 +495,11 @@ func Run(out *vt.W, c Case) {
 			return // a CodingTranscript always is an Orienter
 		}
 		layouts := [][]X{{{0, c.Len, 0}}}
-		if c.Len >= 3 {
+		if c.Len >= 3 && (Big || (c.Cs+c.Ce+len(c.Chain))&1 == 1) {
 			layouts = append(layouts, []X{{0, 1, 0}, {2, c.Len - 2, 0}})
+			if !Big {
+				layouts = layouts[1:]
+			}
 		}
 		for _, lay := range layouts {
 			w := newWorld("coding", c.Chain[0][0], feat.Orientation(c.Chain[0][1]), upper(c.Chain[1:]), c.Cs, c.Ce)
@@ -490,7 +511,14 @@ func Run(out *vt.W, c Case) {
 		if len(refs) == 0 {
 			refs = allRefs(len(c.Chain))
 		}
-		reals := []int{0, 1 + (c.Pos+len(c.Chain))&1} // the harness's feature types and the gene package's
+		reals := []int{0, 1, 2} // the harness's feature types and the gene package's
+		if !Big {
+			k := c.Pos + len(c.Chain) + 1
+			for _, x := range c.Chain {
+				k += x[0] + x[1] + 1
+			}
+			reals = reals[k%3 : k%3+1]
+		}
 		if len(c.Chain) > 8 || len(c.Refs) > 0 {
 			reals = []int{c.Real}
 		}
@@ -534,6 +562,7 @@ func Cases(out *vt.W, path string) int {
 func init() {
 	vt.Register("gene/cases", func(a vt.Args) {
 		w := vt.Create(a.Out)
+		Big = a.Big
 		n := Cases(w, a.In)
 		w.Close()
 		fmt.Printf("cases=%d events=%d\n", n, w.N)
